@@ -11,7 +11,9 @@ from harness.props import c06, c20
 PID = "C10"; COQ_TARGET = "C10"
 RULE = ("replay: random bounded networks with delayed reactants/products, three delay families, delays from 1e-3*dt to 3x the horizon, plain/safe; sampler replay: 3 families x parameters; "
         "canonical family A->delayed B with fixed delays incl. 0 and beyond the horizon; non-trivial = a delayed part is present")
-TRUSTED = ["hand models coq/Model/SSA.v (delay loop), Queue.v, Random.v tied by stream replay", "values passing through ** in the gamma sampler compared with relative tolerance 1e-12"]
+def translate(): return c20.translate()
+TRUSTED = ["translator tools/tr_queue.py: the five numeric methods of ArrayDelayQueue are regenerated from simulator.pyx on every run and proved to simulate Model/Queue.v (Proofs/TieQueue.v)",
+           "hand models coq/Model/SSA.v (delay loop), Queue.v, Random.v tied by stream replay", "values passing through ** in the gamma sampler compared with relative tolerance 1e-12"]
 ASSUMPTIONS = ["whole-run accounting identity and the Normal/Gamma laws of the samplers are not mechanised (C10_partial)", "KS alarm threshold p < 1e-9 (thorough tier only)"]
 
 def gen_cases(seed, tier):
